@@ -22,6 +22,7 @@ type ConcOpts struct {
 	NoCleanup  bool // C14: audit without calling anything after the clients returned
 	HotKeys    [2]int
 	AllowStall bool
+	SweepCheck bool // C13: advance the clock by more than a tick before the final CleanUp and demand a clean sweep
 	NonTrivial func(o *ConcOutcome) bool
 }
 
@@ -75,6 +76,8 @@ type concRun struct {
 	auditNoCleanup    *otter.VerifAudit
 	auditFinal        *otter.VerifAudit
 	rawNoCleanup      []otter.Entry[int, int]
+	rawAfterSweep     []otter.Entry[int, int]
+	sweepNow          int64
 	finalAll          []EntryView
 	finalHot          []EntryView
 	finalCold         []EntryView
@@ -232,6 +235,11 @@ func (cr *concRun) main() {
 		cr.rawNoCleanup = otter.VerifRawEntries(r.C)
 		cr.eventsAtNoCleanup = len(r.Events)
 	})
+	if cr.opts.SweepCheck {
+		// every write has returned; move the clock more than one tick past "now"
+		r.Advance(tickSlack + 7)
+		cr.probe["sweep-final-advance"]++
+	}
 	if !cr.opts.NoCleanup {
 		// pending maintenance: CleanUp until idle (at most 3 times), executor drained each time
 		for i := 0; i < 3; i++ {
@@ -258,6 +266,10 @@ func (cr *concRun) main() {
 		}
 		for e := range r.C.Coldest() {
 			cr.finalCold = append(cr.finalCold, *view(e))
+		}
+		if cr.opts.SweepCheck {
+			w.NoPreempt(func() { cr.rawAfterSweep = otter.VerifRawEntries(r.C) })
+			cr.sweepNow = w.Now
 		}
 		cr.finalWSize = r.C.WeightedSize()
 		cr.finalESize = r.C.EstimatedSize()
